@@ -286,6 +286,28 @@ def run(tier):
                     det["error"] = repr(ex)
                     rep.violation(key + ":t2data.transfer_from-raises", "P_model_transfer", det)
                     continue
+            # a generator of a top category, in a column whose surface lies exactly on a layer boundary, stays in that column's
+            # top block (which exists in the target)
+            for c_ in src.columnlist:
+                on_boundary = any(abs(c_.surface - l_.bottom) < 1e-9 for l_ in src.layerlist[1:-1])
+                if on_boundary and c_.num_layers > 0:
+                    topblk = src.block_name(src.layerlist[src.num_layers - c_.num_layers].name, c_.name)
+                    gname = {0: "abc98", 1: " 98ab", 2: "98abc"}[src.convention]
+                    with core.quiet():
+                        sd2 = t2data.t2data()
+                        sd2.grid = t2grids.t2grid().fromgeo(src)
+                        sd2.add_generator(t2data.t2generator(name=gname, block=topblk, type="MASS", gx=3.5, ex=1.0e5))
+                        td2 = t2data.t2data()
+                        try:
+                            td2.transfer_from(sd2, src, tgt, top_generator=[src.layer_name(gname)])
+                        except Exception as ex:
+                            rep.violation(key + ":top-generator-raises", "P_model_transfer", dict(det, error=repr(ex)))
+                            break
+                    blocks = [g_.block for g_ in td2.generatorlist]
+                    if blocks != [topblk] or any(b_ not in td2.grid.block for b_ in blocks):
+                        rep.violation(key + ":top-generator", "P_model_transfer",
+                                      dict(det, generator_block=blocks, expected=topblk, column_surface=float(c_.surface)))
+                    break
             a = [(g.block, g.name, g.type, g.gx, list(g.rate)) for g in sd.generatorlist]
             b = [(g.block, g.name, g.type, g.gx, list(g.rate)) for g in td.generatorlist]
             if a != b or not np.allclose(sd.total_generation(), td.total_generation()) or \
